@@ -761,7 +761,22 @@ class Project(MessageHandler):
 
                 # Account for dependency gaps - use task.get() with scenario index 0
                 try:
-                    deps = task.get("depends", 0) or []
+                    # The task's own dependencies and those of its containers, each edge
+                    # once: whether a child inherits the list or the container keeps it
+                    # depends on how the project text spells the dependency
+                    deps: list[Any] = []
+                    seen: set[Any] = set()
+                    node: Any = task
+                    while node is not None:
+                        for dep in node.get("depends", 0) or []:
+                            if isinstance(dep, dict):
+                                key = (id(dep.get("task")), str(dep.get("gapduration")))
+                            else:
+                                key = (id(getattr(dep, "task", dep)), str(getattr(dep, "gapduration", None)))
+                            if key not in seen:
+                                seen.add(key)
+                                deps.append(dep)
+                        node = node.parent
                     for dep in deps:
                         gap: Optional[Any] = None
                         if isinstance(dep, dict):
